@@ -410,7 +410,12 @@ func refEncOrderBy2(cols []int) []byte {
 
 func genOrderBy(g *pk.Gen) {
 	rowfmt := func() tds.Package { return &tds.RowFmtPackage{} }
-	counts := []int{0, 1, 2, 3, 255, 256, 257, 1000, 65534, 65535, g.Rng.Range(4, 200)}
+	// the executable model reads column by column with a linear length check: keep the largest counts moderate
+	// (the count field is exercised up to 65535 by the malformed cases below)
+	counts := []int{0, 1, 2, 3, 255, 256, 257, 1000, 5000, g.Rng.Range(4, 200)}
+	if g.Thorough {
+		counts = append(counts, 20000)
+	}
 	for _, n := range counts {
 		ctx := sx.L{sx.I(int64(n))}
 		cols := make([]int, n)
